@@ -33,20 +33,40 @@ var (
 var cfgA = srv.Cfg{Services: []srv.Svc{{Listeners: []srv.Ln{{Type: "tcp", Addr: "127.0.0.1:9000"}, {Type: "udp", Addr: "127.0.0.1:9000"}}, Keys: []srv.Key{kA, kB}}}}
 var cfgB = srv.Cfg{Services: []srv.Svc{{Listeners: []srv.Ln{{Type: "tcp", Addr: "127.0.0.1:9000"}, {Type: "udp", Addr: "127.0.0.1:9000"}, {Type: "tcp", Addr: "127.0.0.1:9001"}}, Keys: []srv.Key{kC, kA}}}}
 
+// the same two configurations in the legacy `keys:` format (every port serves TCP and UDP)
+var cfgLA = srv.Cfg{Legacy: []srv.Legacy{{Key: kA, Port: 9000}, {Key: kB, Port: 9000}}}
+var cfgLB = srv.Cfg{Legacy: []srv.Legacy{{Key: kC, Port: 9000}, {Key: kA, Port: 9000}, {Key: kC, Port: 9001}}}
+
 type spec struct {
-	Pre     string // idle | mid | half
+	Pre     string // idle | mid | half (client has sent FIN, target answers late) | thalf (target has sent FIN, client still uploads)
 	Reloads int
 	UDP     bool
+	Legacy  bool // configurations in the legacy format
+	Second  bool // a second TCP client and a second datagram right behind the first ones (the first of two
+	// arrivals goes to the generation that has been waiting longest, the second to the other one)
 }
 
-func (s spec) name() string { return fmt.Sprintf("reload[pre=%s,reloads=%d,udp=%v]", s.Pre, s.Reloads, s.UDP) }
+func (s spec) name() string {
+	n := fmt.Sprintf("reload[pre=%s,reloads=%d,udp=%v]", s.Pre, s.Reloads, s.UDP)
+	if s.Legacy {
+		n += "[legacy]"
+	}
+	if s.Second {
+		n += "[two-clients]"
+	}
+	return n
+}
 
 type obsT struct {
 	preGot      string
 	preWant     string
+	preTgtGot   string
+	preTgtWant  string
 	preErr      string
 	probe       srv.ProbeResult
 	udp         srv.ProbeResult
+	probe2      srv.ProbeResult
+	udp2        srv.ProbeResult
 	afterTCP    srv.ProbeResult
 	afterUDP    srv.ProbeResult
 	handled     map[string]int
@@ -68,7 +88,20 @@ func scenario(s spec) *engine.Scenario {
 			c.Write(append([]byte("late:"), t.Got[i]...))
 			c.Close()
 		})
-		if err := w.Boot(cfgA, 0); err != nil {
+		// a third target that answers at once, half-closes, and keeps reading (the pre-existing
+		// connection is then half-closed from the target's side while the client still uploads)
+		var early *world.Target
+		early = world.StartTarget("93.184.216.34:82", func(t *world.Target, i int, c *vnet.TCPConn) {
+			c.Write([]byte("early:answer"))
+			c.CloseWrite()
+			t.ReadAll(i, c)
+			c.Close()
+		})
+		bootCfg, cfgs := cfgA, []srv.Cfg{cfgB, cfgA}
+		if s.Legacy {
+			bootCfg, cfgs = cfgLA, []srv.Cfg{cfgLB, cfgLA}
+		}
+		if err := w.Boot(bootCfg, 0); err != nil {
 			panic(err)
 		}
 		vrt.SetInvariant(func() string {
@@ -89,10 +122,13 @@ func scenario(s spec) *engine.Scenario {
 		if s.Pre == "half" {
 			dst = "93.184.216.34:81"
 		}
+		if s.Pre == "thalf" {
+			dst = "93.184.216.34:82"
+		}
 		full := world.EncodeStream(key, 77, world.Addr(dst), first, second)
 		cut := len(world.EncodeStream(key, 77, world.Addr(dst)))
 		switch s.Pre {
-		case "mid":
+		case "mid", "thalf":
 			cut = len(world.EncodeStream(key, 77, world.Addr(dst), first))
 		case "half":
 			cut = len(full)
@@ -103,7 +139,6 @@ func scenario(s spec) *engine.Scenario {
 		}
 		vrt.WaitIdle()
 		// the race: reload(s) || new TCP client || UDP client
-		cfgs := []srv.Cfg{cfgB, cfgA}
 		var ts []*vrt.Thread
 		ts = append(ts, vrt.Spawn("reloader", func() {
 			for i := 0; i < s.Reloads; i++ {
@@ -123,6 +158,18 @@ func scenario(s spec) *engine.Scenario {
 				vrt.Yield("udp-client")
 				o.udp = probeUDP(w, kA)
 			}))
+		}
+		if s.Second {
+			ts = append(ts, vrt.Spawn("client2", func() {
+				vrt.Yield("client2")
+				o.probe2 = w.ProbeTCP(ln, kA, 4248)
+			}))
+			if s.UDP {
+				ts = append(ts, vrt.Spawn("udp-client2", func() {
+					vrt.Yield("udp-client2")
+					o.udp2 = w.ProbeUDP(srv.Listener{Type: "udp", Addr: "127.0.0.1:9000"}, kA, 4349)
+				}))
+			}
 		}
 		vrt.Join(ts...)
 		vrt.WaitIdle()
@@ -150,12 +197,20 @@ func scenario(s spec) *engine.Scenario {
 		if s.Pre == "half" {
 			o.preWant = "late:" + string(first) + string(second)
 		}
+		if s.Pre == "thalf" {
+			o.preWant = "early:answer"
+			o.preTgtWant = string(first) + string(second)
+			if len(early.Got) > 0 {
+				o.preTgtGot = string(early.Got[0])
+			}
+		}
 		for _, r := range w.M.TCP {
 			o.handled[r.Remote]++
 		}
 		vrt.SetInvariant(nil)
 		w.Shutdown()
 		slow.Ln.Close()
+		early.Ln.Close()
 		o.final = w.Bound()
 	}
 	sc.Check = func(x *vrt.Exec) (string, bool, []*engine.Finding) {
@@ -185,6 +240,18 @@ func scenario(s spec) *engine.Scenario {
 			if s.UDP && !o.udp.Forwarded {
 				add("retained-key-rejected{udp}", "a datagram under a retained key sent during the reload did not reach the target (authenticated=%v)", o.udp.Authed)
 			}
+			if s.Second {
+				if o.probe2.Refused {
+					add("connection-refused", "a second connection attempt to the retained address was refused during the reload")
+				} else if !o.probe2.Authed || o.probe2.AuthID != "a" {
+					add("retained-key-rejected{tcp}", "a second client with a key present in both configurations was not authenticated during the reload (status %s, id %q)", o.probe2.Status, o.probe2.AuthID)
+				} else if !o.probe2.Served && o.probe2.Status != "ERR_CONNECT" {
+					add("retained-client-not-served", "second authenticated client during the reload: status %s, reply %q", o.probe2.Status, o.probe2.Reply)
+				}
+				if s.UDP && !o.udp2.Forwarded {
+					add("retained-key-rejected{udp}", "a second datagram under a retained key sent during the reload did not reach the target (authenticated=%v)", o.udp2.Authed)
+				}
+			}
 			if !o.afterUDP.Served {
 				add("first-datagram-after-reload-not-served", "the first datagram on the retained address after the reload had completed: forwarded=%v, answer relayed=%v", o.afterUDP.Forwarded, o.afterUDP.Served)
 			}
@@ -199,6 +266,9 @@ func scenario(s spec) *engine.Scenario {
 			if o.preGot != o.preWant {
 				add("preexisting-connection-broken{"+s.Pre+"}", "the connection opened before the reload received %q, want %q (client error %q)", o.preGot, o.preWant, o.preErr)
 			}
+			if o.preTgtGot != o.preTgtWant {
+				add("preexisting-connection-broken{"+s.Pre+",upload}", "the connection opened before the reload (half-closed by the target, client still uploading): the target received %q, want %q (client error %q)", o.preTgtGot, o.preTgtWant, o.preErr)
+			}
 		}
 		obs := fmt.Sprint(o.probe.Status, o.probe.Served, o.udp.Forwarded, o.preGot == o.preWant, len(o.handled))
 		return obs, true, fs
@@ -211,12 +281,18 @@ func probeUDP(w *srv.World, k srv.Key) srv.ProbeResult {
 	return w.ProbeUDP(srv.Listener{Type: "udp", Addr: "127.0.0.1:9000"}, k, 4343)
 }
 
-func scenarios() []*engine.Scenario {
+func scenarios(tier string) []*engine.Scenario {
 	var out []*engine.Scenario
 	for _, pre := range []string{"idle", "mid", "half"} {
 		out = append(out, scenario(spec{Pre: pre, Reloads: 1, UDP: pre == "idle"}))
 	}
 	out = append(out, scenario(spec{Pre: "mid", Reloads: 2, UDP: true}))
+	out = append(out, scenario(spec{Pre: "thalf", Reloads: 1}))
+	out = append(out, scenario(spec{Pre: "idle", Reloads: 1, UDP: true, Legacy: true, Second: true}))
+	if tier == "thorough" {
+		out = append(out, scenario(spec{Pre: "idle", Reloads: 1, UDP: true, Legacy: true}))
+		out = append(out, scenario(spec{Pre: "idle", Reloads: 1, UDP: true, Second: true}))
+	}
 	return out
 }
 
@@ -248,8 +324,10 @@ func init() {
 		if ctx.Tier == "thorough" {
 			bound = 2
 		}
-		for _, sc := range scenarios() {
-			engine.ExploreS(ctx, sc, engine.SConfig{Bound: bound, Shard: ctx.Shard, NShards: ctx.NShards, Deadline: ctx.Deadline})
+		for _, sc := range scenarios(ctx.Tier) {
+			// the scenarios with two clients also under the second base policy (newest goroutine first:
+			// a freshly started generation gets to run before the reloading goroutine continues)
+			engine.ExploreS(ctx, sc, engine.SConfig{Bound: bound, BothPolicies: strings.Contains(sc.Name, "[two-clients]"), Shard: ctx.Shard, NShards: ctx.NShards, Deadline: ctx.Deadline})
 		}
 		// the hand-over itself at component level, where the window is a few scheduling points
 		// wide: the old generation's handle closes while the new generation's handle accepts;
@@ -259,7 +337,7 @@ func init() {
 		}
 	})
 	hk.Replayers["C11"] = func(ctx *engine.Ctx, rp engine.Replay) []*engine.Finding {
-		return engine.ReplayScenario(append(scenarios(), handover()...), rp)
+		return engine.ReplayScenario(append(scenarios("thorough"), handover()...), rp)
 	}
 }
 
